@@ -89,4 +89,37 @@ def route_tables():
             "end SwimVerif.Generated\n")
 
 
-EXTRACTORS = {"RouteTables": route_tables}
+def meta_routes():
+    """The meta-agent route patterns (`swimos_introspection/src/route/mod.rs`), in the order in which
+    `register_introspection` appends them to the server's route table."""
+    r = src("server/swimos_introspection/src/route/mod.rs")
+    t = src("server/swimos_introspection/src/task/mod.rs")
+    texts = {}
+    for nm in ("mesh", "node", "lane"):
+        const = one(r"pub fn %s_pattern\(\) -> RoutePattern \{\s*RoutePattern::parse_str\((\w+)\)" % nm, r,
+                    f"{nm}_pattern()")
+        text = one(r'const %s: &str = "([^"\\]*)";' % const, r, const)
+        if not text or any(ord(c) >= 128 for c in text):
+            raise ExtractError(f"{const}: empty or non-ASCII pattern text")
+        texts[nm] = text
+    body = one(r"pub fn register_introspection<R>\((.*?)\n\}", t, "register_introspection", re.S)
+    order = re.findall(r"registration\.register\((\w+)_pattern\(\),", body)
+    if len(re.findall(r"registration\.register\(", body)) != len(order) or not order:
+        raise ExtractError("register_introspection: unrecognised registration.register(..) call")
+    for nm in order:
+        if nm not in texts:
+            raise ExtractError(f"register_introspection registers unknown pattern {nm}_pattern()")
+
+    def lst(s):
+        return "[" + ", ".join(str(b) for b in s.encode()) + "]"
+    out = HEADER + "namespace SwimVerif.Generated\n"
+    for nm in ("mesh", "node", "lane"):
+        out += f"/-- `{nm.upper()}_PATTERN` = \"{texts[nm]}\" -/\n"
+        out += f"def {nm}PatternText : List Nat := {lst(texts[nm])}\n"
+    out += ("/-- Order of the `registration.register(.._pattern(), ..)` calls in `register_introspection`. -/\n"
+            "def metaRegistered : List (List Nat) := [" + ", ".join(f"{nm}PatternText" for nm in order) + "]\n"
+            "end SwimVerif.Generated\n")
+    return out
+
+
+EXTRACTORS = {"RouteTables": route_tables, "MetaRoutes": meta_routes}
